@@ -18,6 +18,9 @@ def cb_groups(ctx):
             g.append(s)
         groups.append(g)
     metamorphic(ctx, groups, "callback", ("res", "peer"), "presence or failure of the progress callback changed what push sent", "callback-irrelevance")
+    # pushes (and other FileSync calls) in flight at the same time on one device: each file must still arrive byte for byte
+    from units import conc
+    conc.conc_sessions(ctx, int((20 if ctx.tier == "quick" else 300) * ctx.budget))
 
 
 Unit([("push", scen.gen_push, 4), ("reconnect", scen.gen_reconnect_push, 1)], (oracles.o_c07, oracles.o_c02, oracles.o_lean_c07) + COMMON,
